@@ -139,6 +139,8 @@ func (a *serverApp) init() (err error) {
 			name := strings.ReplaceAll(node.Name(), pathSepRepl, pathSep)
 			stager = newStage(name)
 			stagers[name] = stager
+			// Not ready until the recovery (which runs concurrently) is done
+			stager.Stop(true)
 			go stager.Recover()
 		}
 	}
